@@ -5,6 +5,7 @@ package main
 // XML-DSig signing through goxmldsig, XML-Enc encryption written out by hand.
 
 import (
+	"strings"
 	"bytes"
 	"compress/flate"
 	"crypto"
@@ -226,6 +227,32 @@ type EncOpts struct {
 	Detached  bool     // EncryptedKey as sibling of EncryptedData
 	EmbedCert *KeyPair // recipient cert placed in EncryptedKey KeyInfo (nil: none)
 	To        *KeyPair // public key the symmetric key is wrapped to
+	B64Layout int      // how base64Binary content is laid out: 0 one line; 1 64 columns, LF, trailing LF (xmlsec); 2 76 columns, LF (MIME); 3 one line between line breaks (pretty printers)
+}
+
+// b64Layout renders b as xs:base64Binary in one of the layouts real encryptors emit (line breaks only: they are what
+// every base64 decoder skips)
+func b64Layout(b []byte, layout int) string {
+	s := base64.StdEncoding.EncodeToString(b)
+	wrap := func(n int, nl string) string {
+		var sb strings.Builder
+		for len(s) > n {
+			sb.WriteString(s[:n])
+			sb.WriteString(nl)
+			s = s[n:]
+		}
+		sb.WriteString(s)
+		return sb.String()
+	}
+	switch layout % 4 {
+	case 1:
+		return wrap(64, "\n") + "\n"
+	case 2:
+		return wrap(76, "\n") // (a CR put into the tree would be written raw by etree and read back as LF: nothing new for the library, and a digest mismatch for a signature made over the tree)
+	case 3:
+		return "\n" + s + "\n"
+	}
+	return s
 }
 
 func keyLen(alg string) int {
@@ -344,8 +371,8 @@ func encryptedAssertionWith(data, wrapped []byte, o EncOpts, ap string) *etree.E
 		eki.CreateAttr("xmlns:ds", "http://www.w3.org/2000/09/xmldsig#")
 		eki.CreateElement("ds:X509Data").CreateElement("ds:X509Certificate").SetText(o.EmbedCert.B64())
 	}
-	ek.CreateElement("xenc:CipherData").CreateElement("xenc:CipherValue").SetText(base64.StdEncoding.EncodeToString(wrapped))
-	ed.CreateElement("xenc:CipherData").CreateElement("xenc:CipherValue").SetText(base64.StdEncoding.EncodeToString(data))
+	ek.CreateElement("xenc:CipherData").CreateElement("xenc:CipherValue").SetText(b64Layout(wrapped, o.B64Layout))
+	ed.CreateElement("xenc:CipherData").CreateElement("xenc:CipherValue").SetText(b64Layout(data, o.B64Layout))
 	if o.Detached {
 		ea.AddChild(ek)
 	}
